@@ -96,6 +96,7 @@ fn main() {
     // measure the per-chunk overhead once, before any refusal schedule is armed
     halloc::Env::PLAIN.apply(1);
     let _ = arena::Sim::<1>::measure_k(&mut rep);
+    halloc::start_watchdog(args.get_usize("watchdog", 150) as u64);
     let t0 = std::time::Instant::now();
     let known = std::panic::catch_unwind(std::panic::AssertUnwindSafe(|| match args.workload.as_str() {
         "arena" => {
